@@ -617,8 +617,11 @@ func (c *Ctx) mergeModel(rule string, f *ssa.Function) *mergeSummary {
 				}
 				// insertion: append(s[:p], append([v], s[p:]...)...)
 				inner, ok := x.Origin(args[1]).(*ssa.Call)
+				if !ok {
+					return
+				}
 				iargs, isApp := builtinCall(inner, "append")
-				if !ok || !isApp {
+				if !isApp {
 					return
 				}
 				nIns++
@@ -978,6 +981,7 @@ func (c *Ctx) ruleFullBuildAndRemoval(rule string) {
 		// the list: built directly in the SortRules field of the fresh container, or in a local
 		// slice that is stored into that field afterwards
 		var listCell *ssa.Alloc // nil: the field itself
+		var listSt *ssa.Store
 		eachInstr(f, func(in ssa.Instruction) {
 			st, ok := in.(*ssa.Store)
 			if !ok {
@@ -991,12 +995,21 @@ func (c *Ctx) ruleFullBuildAndRemoval(rule string) {
 				return
 			}
 			if cell := x.Cell(st.Val); cell != nil && cell.Parent() == f {
-				listCell = cell
+				listCell, listSt = cell, st
 			}
 		})
 		isList := func(v ssa.Value) bool {
 			if listCell != nil {
-				return x.Cell(v) == listCell
+				if x.Cell(v) == listCell {
+					return true
+				}
+				// the field read back after the list was stored into it
+				if b, is := x.isFieldLoad(v, "KnowledgeContext", "SortRules"); is && x.freshKc(b) {
+					if ld, isLd := x.Origin(v).(*ssa.UnOp); isLd && domInstr(listSt, ld) {
+						return true
+					}
+				}
+				return false
 			}
 			_, is := x.isFieldLoad(v, "KnowledgeContext", "SortRules")
 			return is
@@ -1103,6 +1116,35 @@ func (c *Ctx) ruleFullBuildAndRemoval(rule string) {
 			}
 		})
 		_ = kind
+		// and the sort is on every way to the installation, except for a list of fewer than two rules:
+		// a second condition beside the length (a flag "some rule has a priority") lets a list through unsorted
+		if okSort && pubSt != nil {
+			short := map[edgeKey]bool{}
+			for _, b := range f.Blocks {
+				iff, isIf := b.Instrs[len(b.Instrs)-1].(*ssa.If)
+				if !isIf {
+					continue
+				}
+				if arg, _, thi, _, fhi, isLT := x.lenTest(iff.Cond); isLT && isList(arg) {
+					if thi <= 1 {
+						short[edgeKey{b, 0}] = true
+					}
+					if fhi <= 1 {
+						short[edgeKey{b, 1}] = true
+					}
+				}
+			}
+			isSortCall := func(in ssa.Instruction) bool {
+				call, ok := in.(*ssa.Call)
+				if !ok || call.Call.StaticCallee() == nil || call.Call.StaticCallee().Pkg == nil || call.Call.StaticCallee().Pkg.Pkg.Path() != "sort" {
+					return false
+				}
+				return isList(x.Unwrap(call.Call.Args[0]))
+			}
+			if _, round := pathExistsEB(f, nil, func(in ssa.Instruction) bool { return in == ssa.Instruction(pubSt) }, short, isSortCall); round {
+				okSort = false
+			}
+		}
 		c.Check(rule, "BuildRuleFromString#sorts-then-indexes", okSort && okIdx, f.Pos(), "the full build must sort the list (whenever it has more than one element) and index every position before installing (sort %v, index %v)", okSort, okIdx)
 		okLast := pubSt != nil
 		if okLast {
